@@ -31,7 +31,7 @@ def same_family(t, base):
     return land(t.kind == base.kind, t.alpha == base.alpha)
 
 
-cls('MultiValueTracker', file=F,
+cls('MultiValueTracker', file=F, opaque_inv=True,
     fields={'N': TInt, 'tracked_value': TrackDict, '_tracked_keys': TSet(TKey), '_base_tracker': TrackerT},
     invariant={
         'N_nonneg': lambda s: s.N >= 0,
